@@ -76,6 +76,8 @@
 
 ; string renderings
 (declare-fun hexstr (Bytes) Str)
+; HexBytes.String writes upper-case hex, which encoding/hex decodes back to the same bytes
+(assert (forall ((b Bytes)) (! (and (= (hexErr (hexstr b)) NoErr) (= (hexDecode (hexstr b)) b)) :pattern ((hexstr b)))))
 
 ; representation invariant WF: stored records agree with the key they are stored under; binding owners are
 ; ordinary accounts (they signed the bind message: A3)
@@ -238,11 +240,32 @@
         (- (RequestContext_BatchRequestCount (ctxOf r id)) (RequestContext_BatchResponseCount (ctxOf r id)))))))
 (define-fun cntInv ((r (Array Key Bytes))) Bool (forall ((id Bytes)) (! (batchOK r id) :pattern ((select r (KCtx id))) :pattern ((cntActV (actView r) id)))))
 
+; ---- genesis import: what InitGenesis writes for the first n definitions / bindings of a genesis file
+(declare-fun wrDefs ((Array Key Bytes) (Slice ServiceDefinition) Int) (Array Key Bytes))
+(assert (forall ((r (Array Key Bytes)) (ds (Slice ServiceDefinition))) (! (= (wrDefs r ds 0) r) :pattern ((wrDefs r ds 0)))))
+(assert (forall ((r (Array Key Bytes)) (ds (Slice ServiceDefinition)) (n Int)) (! (=> (> n 0) (= (wrDefs r ds n)
+   (store (wrDefs r ds (- n 1)) (KDef (ServiceDefinition_Name (select (sarr ds) (- n 1)))) (enc_ServiceDefinition (select (sarr ds) (- n 1)))))) :pattern ((wrDefs r ds n)))))
+(define-fun wrBind1 ((r (Array Key Bytes)) (b ServiceBinding)) (Array Key Bytes)
+  (store (store (store (store (store r
+     (KBind (ServiceBinding_ServiceName b) (ServiceBinding_Provider b)) (enc_ServiceBinding b))
+     (KOwnerBind (ServiceBinding_Owner b) (ServiceBinding_ServiceName b) (ServiceBinding_Provider b)) emptyVal)
+     (KOwner (ServiceBinding_Provider b)) (enc_BytesValue (mkBytesValue (ServiceBinding_Owner b))))
+     (KOwnerProv (ServiceBinding_Owner b) (ServiceBinding_Provider b)) emptyVal)
+     (KPricing (ServiceBinding_ServiceName b) (ServiceBinding_Provider b)) (enc_Pricing (parsePricing (ServiceBinding_Pricing b)))))
+(declare-fun wrBinds ((Array Key Bytes) (Slice ServiceBinding) Int) (Array Key Bytes))
+(assert (forall ((r (Array Key Bytes)) (bs (Slice ServiceBinding))) (! (= (wrBinds r bs 0) r) :pattern ((wrBinds r bs 0)))))
+(assert (forall ((r (Array Key Bytes)) (bs (Slice ServiceBinding)) (n Int)) (! (=> (> n 0) (= (wrBinds r bs n)
+   (wrBind1 (wrBinds r bs (- n 1)) (select (sarr bs) (- n 1))))) :pattern ((wrBinds r bs n)))))
+
 ; ---- listings (queries): records under a prefix, in key order
 (declare-fun bindsIt ((Array Key Bytes) Prefix Int) (Slice ServiceBinding))
 (assert (forall ((s (Array Key Bytes)) (p Prefix)) (! (= (bindsIt s p 0) (mkSlice 0 zarr_ServiceBinding)) :pattern ((bindsIt s p 0)))))
 (assert (forall ((s (Array Key Bytes)) (p Prefix) (n Int)) (! (=> (> n 0) (= (bindsIt s p n) (let ((prev (bindsIt s p (- n 1))))
    (mkSlice (+ (slen prev) 1) (store (sarr prev) (slen prev) (dec_ServiceBinding (select s (itKey s p (- n 1))))))))) :pattern ((bindsIt s p n)))))
+(declare-fun defsIt ((Array Key Bytes) Prefix Int) (Slice ServiceDefinition))
+(assert (forall ((s (Array Key Bytes)) (p Prefix)) (! (= (defsIt s p 0) (mkSlice 0 zarr_ServiceDefinition)) :pattern ((defsIt s p 0)))))
+(assert (forall ((s (Array Key Bytes)) (p Prefix) (n Int)) (! (=> (> n 0) (= (defsIt s p n) (let ((prev (defsIt s p (- n 1))))
+   (mkSlice (+ (slen prev) 1) (store (sarr prev) (slen prev) (dec_ServiceDefinition (select s (itKey s p (- n 1))))))))) :pattern ((defsIt s p n)))))
 (declare-fun respsIt ((Array Key Bytes) Prefix Int) (Slice Response))
 (assert (forall ((s (Array Key Bytes)) (p Prefix)) (! (= (respsIt s p 0) (mkSlice 0 zarr_Response)) :pattern ((respsIt s p 0)))))
 (assert (forall ((s (Array Key Bytes)) (p Prefix) (n Int)) (! (=> (> n 0) (= (respsIt s p n) (let ((prev (respsIt s p (- n 1))))
